@@ -1335,7 +1335,12 @@ func conv(t_dst, t_src types.Type, x value) value {
 				if _, toSlice := ut_dst.(*types.Slice); toSlice {
 					return sb
 				}
-				return bytesText(sb)
+				txt := bytesText(sb)
+				if ss, ok := txt.(symStr); ok && sb.tree != nil {
+					// remember the JSON tree of this text: converting the string back to bytes restores it
+					strTree[ss.t] = sb.tree
+				}
+				return txt
 			}
 			x := x.([]value)
 			b := make([]byte, 0, len(x))
